@@ -71,6 +71,15 @@ void h_error (void)
 		p_error_clear (e);
 		p_error_free (e);
 	} else CANARY ("new failed");
+	PError *n = p_error_new ();
+	if (n != NULL) {
+		OBL (p_error_get_code (n) == 0 && p_error_get_message (n) == NULL, "a new error object is empty");
+		p_error_set_message (n, msg); p_error_set_message (n, msg);       /* the second call releases the first copy */
+		p_error_set_code (n, code); p_error_set_native_code (n, nat);
+		OBL (p_error_get_code (n) == code && p_error_get_native_code (n) == nat, "setters");
+		p_error_free (n);
+	}
+	p_error_set_message (NULL, msg);
 	PError *slot = NULL;
 	p_error_set_error_p (&slot, code, nat, msg);
 	if (slot != NULL) p_error_free (slot);
